@@ -140,16 +140,19 @@ def ok_err_assignments(body):
     return out
 
 
-def chains(body, operand, arg=0, depth=0, _acc=None):
+def chains(body, operand, arg=0, depth=0, _acc=None, stop=None):
     """Follow every root of `operand`; for `call` roots continue into argument `arg` of that call.
     -> list of (tuple_of_callee_names_passed, terminal_root) -- one per root path."""
     out = []
     acc = _acc or ()
     for r in prov(body, operand):
+        if stop is not None and stop(r):
+            out.append((acc, r))
+            continue
         if r.kind == "call" and r.site is not None and depth < 12:
             t = body.term(r.site)
             if len(t["args"]) > arg:
-                sub = chains(body, t["args"][arg], arg, depth + 1, acc + (r.name,))
+                sub = chains(body, t["args"][arg], arg, depth + 1, acc + (r.name,), stop)
                 if sub:
                     out.extend(sub)
                     continue
@@ -159,10 +162,10 @@ def chains(body, operand, arg=0, depth=0, _acc=None):
     return out
 
 
-def chain_ok(body, operand, terminal, allowed=None, required=(), forbidden=()):
+def chain_ok(body, operand, terminal, allowed=None, required=(), forbidden=(), stop=False):
     """every root path of operand ends in a root satisfying `terminal`, passes only callees whose
     short name is in `allowed` (if given), passes every name in `required`, none in `forbidden`"""
-    cs = chains(body, operand)
+    cs = chains(body, operand, stop=terminal if stop else None)
     if not cs:
         return False
     for names, root in cs:
